@@ -10,6 +10,10 @@ TDelay == /\ Ev.e = "Delay" /\ Ev.o = "ret"
           /\ Ev.shift_ok = TRUE
           /\ Ev.fd = Ev.d
           /\ Ev.gcc_dev_milli <= 500
+(* delayseq over the whole shift range: y[i] = x[i - d] where that exists, 0 elsewhere - also for |d| >= length *)
+Shifted(x, d) == [i \in 1..Len(x) |-> IF i - d >= 1 /\ i - d <= Len(x) THEN x[i - d] ELSE 0]
+TShift == /\ Ev.e = "Shift" /\ Ev.o = "ret" /\ Ev.agree = TRUE
+          /\ Ev.yr = Shifted(Ev.xr, Ev.d) /\ Ev.yi = Shifted(Ev.xi, Ev.d)
 TPeakloc == /\ Ev.e = "Peakloc"
             /\ IF Ev.edge THEN Ev.q = 0 ELSE PeakAgrees(Ev.q, Ev.l, Ev.m, Ev.r)
 (* one preamble whose last sample has stream index e: detection in frame e div F at offset e mod F, the returned
@@ -25,7 +29,7 @@ TDetect == /\ Ev.e = "Detect" /\ Ev.nthrow = 0
               ELSE Ev.det_frame = -1
 TDetFrame == Ev.e = "DetFrame" /\ Ev.o = "throw" /\ Ev.F = FrameLen(Ev.Lp)
 Next == /\ l <= Len(Log)
-        /\ (TDelay \/ TPeakloc \/ TDetect \/ TDetFrame) = TRUE
+        /\ (TDelay \/ TShift \/ TPeakloc \/ TDetect \/ TDetFrame) = TRUE
         /\ l' = l + 1
 Spec == Init /\ [][Next]_l
 Furthest == IF l > TLCGet(1) THEN TLCSet(1, l) ELSE TRUE
